@@ -26,21 +26,7 @@ fn format_value_with_depth(value: &JsValue, depth: usize, seen: &mut Vec<usize>)
                 String::from("false")
             }
         }
-        JsValue::Number(n) => {
-            if n.is_nan() {
-                String::from("NaN")
-            } else if n.is_infinite() {
-                if *n > 0.0 {
-                    String::from("Infinity")
-                } else {
-                    String::from("-Infinity")
-                }
-            } else if crate::prelude::math::fract(*n) == 0.0 && n.abs() < 1e15 {
-                format!("{}", *n as i64)
-            } else {
-                format!("{}", n)
-            }
-        }
+        JsValue::Number(n) => crate::value::number_to_string(*n),
         JsValue::String(s) => s.to_string(), // No quotes for console output
         JsValue::Symbol(sym) => match &sym.description {
             Some(desc) => format!("Symbol({})", desc),
@@ -164,7 +150,7 @@ fn format_object_for_console(
         }
         ExoticObject::Proxy(_) => String::from("Proxy {}"),
         ExoticObject::Boolean(b) => format!("[Boolean: {}]", b),
-        ExoticObject::Number(n) => format!("[Number: {}]", n),
+        ExoticObject::Number(n) => format!("[Number: {}]", crate::value::number_to_string(*n)),
         ExoticObject::StringObj(s) => format!("[String: \"{}\"]", s),
         ExoticObject::Symbol(sym) => match &sym.description {
             Some(desc) => format!("[Symbol: Symbol({})]", desc),
